@@ -227,6 +227,15 @@ func (c *Cluster) emit(ev *Event, n *AppNode) {
 		ev.Node = n.ID
 		ev.Inc = n.Inc
 		ev.N = jNode(n.RN)
+		if strings.HasPrefix(ev.N.Role, "X:") {
+			// reading the node's state tripped an internal assertion: the process is dead
+			if ev.Panic == "" {
+				ev.Panic = "state read: " + strings.TrimPrefix(ev.N.Role, "X:")
+				c.Panics = append(c.Panics, fmt.Sprintf("tr=%d l=%d node=%d act=%s: %s", c.Tr, c.seq+1, n.ID, ev.Act, ev.Panic))
+			}
+			ev.N.Role = "F"
+			n.crashVolatile()
+		}
 		ev.D = jDisk(n.St)
 		ev.P = c.jApp(n)
 	} else {
@@ -867,7 +876,7 @@ func (c *Cluster) applyEntries(n *AppNode, ents []*pb.Entry, ev *Event) string {
 // ApplyConfChange, which would panic on it. Applicability is decided by the library's own
 // confchange.Changer on a scratch tracker restored from the current ConfState.
 func (n *AppNode) validated(cc *pb.ConfChangeV2) *pb.ConfChangeV2 {
-	cur := n.RN.Status().Config
+	cur := n.RN.Status().Config // (inside applyEntries' recover)
 	scratch := tracker.MakeProgressTracker(1, 0)
 	cs := (&tracker.ProgressTracker{Config: cur}).ConfState()
 	cfg, prs, err := confchange.Restore(confchange.Changer{Tracker: scratch, LastIndex: 0}, cs)
